@@ -85,7 +85,7 @@ def main():
             sys.stdout.flush()
         res["caught_by"] = caught
         res["details"] = details
-        sh("git -C %s checkout -- . && git -C %s clean -fdq" % (wt, wt))
+        sh("git -C %s reset -q --hard && git -C %s clean -fdq" % (wt, wt))
         r = sh("cd /dev/shm && timeout 300 /venv/bin/python %s %s/src" % (demo, wt))
         res["demo_without_change"] = r.returncode
         ok = res["tests_pass"] and res["demo_with_change"] == 1 and res["demo_without_change"] == 0
